@@ -293,7 +293,7 @@ func (g *gen) newNode(q nodeReq) string {
 			n.Out = pickType(r)
 		}
 	}
-	if g.s.State && r.Prob(0.25) {
+	if g.s.State && r.Prob(0.35) {
 		n.Pre = n.inPort()
 		if r.Prob(0.15) {
 			n.Pre = pickType(r)
@@ -303,7 +303,7 @@ func (g *gen) newNode(q nodeReq) string {
 			n.PreState = 1
 		}
 	}
-	if g.s.State && r.Prob(0.25) {
+	if g.s.State && r.Prob(0.35) {
 		n.Post = n.outPort()
 		if r.Prob(0.15) {
 			n.Post = pickType(r)
